@@ -125,3 +125,29 @@ def run_updater(payload):
             o["raised"] = f"{type(ex).__name__}: {ex}"
         res.append(o)
     return res
+
+
+def run_pipeline(payload):
+    """the real-world pipeline: clean the markup, extract citations from the cleaned text, annotate
+    the SOURCE markup with the returned spans (items: {markup, steps, mode, dmp, which})"""
+    from eyecite import clean_text, get_citations
+    res = []
+    for c in payload["items"]:
+        try:
+            plain = clean_text(c["markup"], c["steps"])
+            cs = get_citations(plain)
+            if c.get("which") == "full":
+                anns = [list(x.full_span()) for x in cs]
+            elif c.get("which") == "pin":
+                anns = [list(x.span_with_pincite()) for x in cs]
+            else:
+                anns = [list(x.span()) for x in cs]
+            # overlapping full spans are legitimate input for annotate_citations; keep list order sorted
+            anns = sorted(anns)
+            o = annotate_one(plain, c["markup"], True, c["mode"], anns, c.get("dmp", True))
+        except Exception as ex:  # noqa: BLE001
+            o = {"target": _cp(c["markup"]), "plain": [], "hasSrc": True, "mode": c["mode"], "anns": [], "dmp": c.get("dmp", True),
+                 "raised": f"{type(ex).__name__}: {ex}", "items": [], "wf": True, "tc": [], "src_wf": True, "src_tc": [], "minimal": True}
+        o["src"] = []
+        res.append(o)
+    return res
